@@ -84,6 +84,8 @@ def facts(repo):
         raise ShapeError("transform.py map_if: unrecognised statement order %r" % marks)
 
     b = _body(_find_def(cg, "emit_for_begin"))
+    # (the loop-depth counter added by the repair of C12, 176abb3, does not touch the emitted loop)
+    b = [x for x in b if x != "self.for_loop_depth += 1"]
     if b == [FOR_BEGIN % "ubound - 1", "em.__enter__()"]:
         m1 = True
     elif b == [FOR_BEGIN % "ubound", "em.__enter__()"]:
